@@ -837,6 +837,11 @@ type deadlineContextWriter struct {
 
 	// quit closed once the connection is closed.
 	quit chan struct{}
+
+	// writeErr is the first error returned by the underlying Write. It is
+	// protected by semaphore. After a failed (possibly partial) write no
+	// further frame may be written, the connection is about to be closed.
+	writeErr error
 }
 
 // writeContext implements contextWriter.
@@ -859,6 +864,9 @@ func (c *deadlineContextWriter) writeContext(ctx context.Context, p []byte) (int
 	if err := ctx.Err(); err != nil {
 		return 0, err
 	}
+	if c.writeErr != nil {
+		return 0, c.writeErr
+	}
 
 	if c.timeout > 0 {
 		err := c.w.SetWriteDeadline(time.Now().Add(c.timeout))
@@ -866,7 +874,11 @@ func (c *deadlineContextWriter) writeContext(ctx context.Context, p []byte) (int
 			return 0, err
 		}
 	}
-	return c.w.Write(p)
+	n, err := c.w.Write(p)
+	if err != nil {
+		c.writeErr = err
+	}
+	return n, err
 }
 
 func newWriteCoalescer(conn deadlineWriter, writeTimeout, coalesceDuration time.Duration,
@@ -956,10 +968,16 @@ func (w *writeCoalescer) writeFlusherImpl(timerC <-chan time.Time, resetTimer fu
 
 	var buffers net.Buffers
 	var resultChans []chan<- writeResult
+	// writeErr is the first error of a flush, after it nothing more is written
+	var writeErr error
 
 	for {
 		select {
 		case req := <-w.writeCh:
+			if writeErr != nil {
+				req.resultChan <- writeResult{err: writeErr}
+				continue
+			}
 			if err := req.ctx.Err(); err != nil {
 				// the caller gave up before we started to write its frame
 				req.resultChan <- writeResult{err: err}
@@ -985,7 +1003,7 @@ func (w *writeCoalescer) writeFlusherImpl(timerC <-chan time.Time, resetTimer fu
 			return
 		case <-timerC:
 			running = false
-			w.flush(resultChans, buffers)
+			writeErr = w.flush(resultChans, buffers)
 			buffers = nil
 			resultChans = nil
 			if w.testFlushedHook != nil {
@@ -995,7 +1013,7 @@ func (w *writeCoalescer) writeFlusherImpl(timerC <-chan time.Time, resetTimer fu
 	}
 }
 
-func (w *writeCoalescer) flush(resultChans []chan<- writeResult, buffers net.Buffers) {
+func (w *writeCoalescer) flush(resultChans []chan<- writeResult, buffers net.Buffers) error {
 	// Flush everything we have so far.
 	if w.timeout > 0 {
 		err := w.c.SetWriteDeadline(time.Now().Add(w.timeout))
@@ -1006,7 +1024,7 @@ func (w *writeCoalescer) flush(resultChans []chan<- writeResult, buffers net.Buf
 					err: err,
 				}
 			}
-			return
+			return err
 		}
 	}
 	// Copy buffers because WriteTo modifies buffers in-place.
@@ -1032,6 +1050,7 @@ func (w *writeCoalescer) flush(resultChans []chan<- writeResult, buffers net.Buf
 			n = 0
 		}
 	}
+	return err
 }
 
 // addCall attempts to add a call to c.calls.
